@@ -287,6 +287,22 @@ func runC19(r *vfw.Run) {
 	var ur c19resp
 	json.Unmarshal([]byte(out), &ur)
 	stillThere := ur.Error == nil && string(ur.Result) == "true"
+	// the server registers a subscription only AFTER it has written the subscribe response, and serves requests of one
+	// connection in separate goroutines: on a loaded machine the owner's unsubscribe can overtake the registration and be
+	// told "not found". A subscription that really was cancelled stays not found; a late one appears within moments.
+	for try := 0; !stillThere && !keyedUnsub && try < 40; try++ {
+		time.Sleep(25 * time.Millisecond)
+		out, err = send(c1, rd1, `{"jsonrpc":"2.0","id":2,"method":"probe_unsubscribe","params":["`+subID+`"],"key":"`+c19Key+`"}`)
+		if err != nil {
+			r.Trouble("owner unsubscribe: %v", err)
+		}
+		ur = c19resp{}
+		json.Unmarshal([]byte(out), &ur)
+		stillThere = ur.Error == nil && string(ur.Result) == "true"
+		if stillThere {
+			r.Probe("owner_unsubscribe_overtook_registration")
+		}
+	}
 	if !stillThere && !keyedUnsub {
 		r.Violate("C19:subscription-cancelled-without-key", "after exchange %s the owner's subscription %s no longer exists (%s)", msg, subID, out)
 	}
